@@ -720,8 +720,20 @@ class SimWorld:
             ) else self.client_kw
             kw.update(ck or {})
             self.clients.append(clients.SimulatedClient(**kw))
-        fw = self.framework = FlumineSimulation(client=self.clients[0])
         world = self
+        if getattr(self, "own_sim_middleware", False):
+            # the user registers a subclass of the simulation middleware BEFORE the first client is added
+            # (documented extension point): it must stay the only one
+            from flumine.markets.middleware import SimulatedMiddleware
+
+            class OwnSimulatedMiddleware(SimulatedMiddleware):
+                pass
+
+            fw = self.framework = FlumineSimulation()
+            fw.add_market_middleware(OwnSimulatedMiddleware())
+            fw.add_client(self.clients[0])
+        else:
+            fw = self.framework = FlumineSimulation(client=self.clients[0])
         if getattr(self, "early_user_middleware", False):
             # a user middleware registered before further clients are added (set-up order must not matter)
             class Early(Middleware):
